@@ -127,7 +127,7 @@ func RunDriver(a DriverArgs) int {
 	}
 	timeout := info.CaseTimeout
 	if timeout <= 0 {
-		timeout = 60
+		timeout = 300
 	}
 	if info.MaxRSSMB == 0 && info.Race {
 		info.MaxRSSMB = 8192
